@@ -101,7 +101,7 @@ type c09Op struct {
 	Res int   `json:"res,omitempty"`
 	Dom int   `json:"dom,omitempty"`
 	Cli int   `json:"cli,omitempty"`
-	Ups []int `json:"ups,omitempty"` // upstream key*4 + (cached?1:0) + (error?2:0)
+	Ups []int `json:"ups,omitempty"`  // upstream key*4 + (cached?1:0) + (error?2:0)
 	T   int64 `json:"t_ns,omitempty"` // processing time in nanoseconds
 	// no observation after this step (inside a burst of updates)
 	Skip bool `json:"skip,omitempty"`
@@ -183,13 +183,13 @@ func c09Int(i int64) string {
 
 // Error classes of a step (bits of c09Obs.Err); the model expects 0.
 const (
-	c09ErrClose  = 1  // Close returned an error
-	c09ErrNew    = 2  // New returned an error (the history stops there)
-	c09ErrReset  = 4  // POST /control/stats_reset did not answer 200
-	c09ErrStats  = 8  // GET /control/stats did not answer 200 / undecodable
-	c09ErrLogged = 16 // the code logged at error level during the step
-	c09ErrDB     = 32 // the database file could not be read back
-	c09ErrStop   = 64 // flush told the periodic flusher to stop although there is a current unit
+	c09ErrClose  = 1   // Close returned an error
+	c09ErrNew    = 2   // New returned an error (the history stops there)
+	c09ErrReset  = 4   // POST /control/stats_reset did not answer 200
+	c09ErrStats  = 8   // GET /control/stats did not answer 200 / undecodable
+	c09ErrLogged = 16  // the code logged at error level during the step
+	c09ErrDB     = 32  // the database file could not be read back
+	c09ErrStop   = 64  // flush told the periodic flusher to stop although there is a current unit
 	c09ErrConfig = 128 // GET /control/stats/config or stats_info failed or disagrees with WriteDiskConfig
 )
 
@@ -213,7 +213,7 @@ type c09Obs struct {
 	// responses); UpAll: every upstream of either merged map.
 	UpAvg   [][3]int64
 	UpAll   map[int64][2]uint64 // key -> (responses, microseconds)
-	UpAPI   []c09UpFloat         // top_upstreams_avg_time as answered
+	UpAPI   []c09UpFloat        // top_upstreams_avg_time as answered
 	ErrMsgs []string
 }
 
@@ -276,10 +276,10 @@ type c09Sim struct {
 	routes map[string]http.HandlerFunc
 
 	// Independent ghost state, kept per the property statement only.
-	ghost     map[uint32]*[6]uint64 // hour -> accepted, un-cleared updates (total, nf..p)
+	ghost     map[uint32]*[6]uint64          // hour -> accepted, un-cleared updates (total, nf..p)
 	ghostUp   map[uint32]map[int64][2]uint64 // hour -> upstream -> (counted responses, their microseconds)
-	unitHour  uint32                // the hour that is current for counting
-	limH      uint32                // retention limit in hours
+	unitHour  uint32                         // the hour that is current for counting
+	limH      uint32                         // retention limit in hours
 	enabled   bool
 	lostUpTo  uint32 // hours <= lostUpTo were outside the window at some flush/restart since the last clear
 	raised    bool   // the limit has been raised since the last clear
@@ -352,10 +352,10 @@ func (m *c09Sim) conf(ms int64, en bool) Config {
 		panic(err)
 	}
 	return Config{
-		Ignored:           ign,
-		Logger:            slog.New(c09LogHandler{m}),
-		UnitID:            func() uint32 { return m.hour.Load() },
-		ConfigModified:    func() {},
+		Ignored:        ign,
+		Logger:         slog.New(c09LogHandler{m}),
+		UnitID:         func() uint32 { return m.hour.Load() },
+		ConfigModified: func() {},
 		ShouldCountClient: func([]string) bool {
 			if h := m.countHook.Load(); h != nil {
 				(*h)()
@@ -1422,7 +1422,7 @@ func TestVerifC09(t *testing.T) {
 	// (C09_mutual_exclusion covers the fields under currMu / confMu).
 	if f, ok := reflect.TypeOf(StatsCtx{}).FieldByName("db"); !ok || !strings.HasPrefix(f.Type.String(), "atomic.Pointer[") {
 		out.Emit(vfCase{Coq: "(CHist 490000 3600000 true (@nil (op * obs)))%Z", MonitorOK: false,
-			MonitorMsg:  "StatsCtx.db is not an atomic.Pointer: it is read and written outside currMu/confMu",
+			MonitorMsg: "StatsCtx.db is not an atomic.Pointer: it is read and written outside currMu/confMu",
 			FindingKey: "c09-db-pointer-not-atomic", Desc: map[string]any{"name": "db field type"}})
 	}
 	out.Class("db-pointer-atomic")
